@@ -25,6 +25,15 @@ def build(seed, prop, idx, o=None):
     must = list(o.get("must_aggregates", []))
     aggregates = o.get("aggregates") or gen.random_aggregates(rng, el, must=must)
     alphas = o.get("alphas") or gen.random_alphas(rng)
+    if o.get("cat_key"):
+        # dtype variety: the finest requested grouping column is a pandas categorical that also lists levels no unit
+        # has (e.g. a district that has no unit in this state file).  Only that column is requested, because the
+        # repository sums every non-key column of a group and categoricals cannot be summed.
+        col = gen.choice(rng, [c for c in (("district",) if el.district else ()) + ("county_fips",) if c in el.pre.columns])
+        aggregates = [col, "unit"] if rng.random() < 0.7 else [col]
+        if col == "district" and rng.random() < 0.5:
+            aggregates = ["postal_code"] + aggregates
+        gen.make_categorical(el, col)
     mp = {}
     if estimator == "bootstrap":
         estimands = ["margin"]
@@ -37,11 +46,27 @@ def build(seed, prop, idx, o=None):
         fe = o.get("fixed_effects")
         if fe is None:
             fe = gen.random_fixed_effects(rng, el, p_any=0.3)
+        if o.get("rare_options", True) and rng.random() < 0.3:
+            # options ordinary runs leave at their defaults
+            r = int(rng.integers(0, 5))
+            if r == 0:
+                mp["strata"] = [[], ["county_fips"], ["county_classification", "county_fips"]][int(rng.integers(0, 3))]
+            elif r == 1:
+                mp["y_unobserved_lower_bound"], mp["y_unobserved_upper_bound"] = [(-0.5, 0.5), (-1.0, 0.0), (0.0, 0.0)][
+                    int(rng.integers(0, 3))]
+            elif r == 2:
+                mp["z_unobserved_lower_bound"], mp["z_unobserved_upper_bound"] = [(0.9, 1.1), (1.0, 1.0), (0.1, 3.0)][
+                    int(rng.integers(0, 3))]
+            elif r == 3:
+                mp["percent_expected_vote_error_bound"] = float(gen.choice(rng, [0.0, 0.05, 5.0]))
+            elif el.meta["n_states"] > 1:
+                mp["states_for_separate_model"] = [gen.STATES[int(rng.integers(0, el.meta["n_states"]))]]
     else:
         pool = ["turnout", "dem", "gop"]
         k = int(o.get("n_estimands", gen.choice(rng, [1, 1, 2, 3])))
         estimands = o.get("estimands") or [pool[i] for i in rng.permutation(3)[:k]]
-        if "estimands" not in o and o.get("allow_pointer_config", True) and rng.random() < 0.12:
+        if "estimands" not in o and o.get("allow_pointer_config", True) and (
+                rng.random() < 0.12 or o.get("pointer_config")):
             # primary-style config: new candidates whose baselines point at a previous candidate (two of them at the
             # same one); the feed carries their own result columns
             pointer = {"turnout": "turnout", "dem": "dem", "gop": "gop", "cand_a": "dem", "cand_b": "dem", "cand_c": "gop"}
@@ -92,6 +117,8 @@ def build(seed, prop, idx, o=None):
     if rng.random() < 0.5:
         mp["fit_turnout_outlier_model"] = False
         mp["fit_margin_outlier_model"] = False
+    elif o.get("rare_options", True) and rng.random() < 0.2:
+        mp["outlier_z_threshold"] = float(gen.choice(rng, [1.0, 1.5, 3.0]))
     if rng.random() < 0.2:
         mp["turnout_factor_lower"] = float(gen.choice(rng, [0.2, 0.6, 0.0]))
         mp["turnout_factor_upper"] = float(gen.choice(rng, [1.5, 3.0, 1e9]))
@@ -100,6 +127,23 @@ def build(seed, prop, idx, o=None):
         estimands=estimands, prediction_intervals=alphas, percent_reporting_threshold=thr, pi_method=estimator,
         aggregates=aggregates, features=features, fixed_effects=fe, model_parameters=mp, handle_unreporting=policy,
     )
+    if o.get("feed_as_lists", bool(rng.random() < 0.2)):
+        call["feed_as_lists"] = True
+    if o.get("pre_from_earlier_run", bool(rng.random() < 0.1)) and not el.meta.get("cat_key") \
+            and "baseline_pointer" not in el.config[el.election_id][0]:
+        # a history: the baseline file is the one an earlier run for OTHER estimands saved (save_output=["data"]); it
+        # carries that run's derived columns (weights, last_election_results_*, normalised margin), produced here by
+        # the library's own preprocessing step
+        harness.client_mod()
+        from elexmodel.handlers.data.Estimandizer import Estimandizer
+
+        other = {"margin": "margin"} if "margin" not in estimands else {gen.choice(rng, ["turnout", "dem"]): None}
+        other = {k: (v if v else k) for k, v in other.items()}
+        try:
+            el.pre = Estimandizer().add_estimand_baselines(el.pre.copy(deep=True), other, False)
+            el.meta["pre_from_earlier_run"] = sorted(other)
+        except Exception:  # noqa: BLE001  (not judged here)
+            pass
     return el, feed, status, call
 
 
